@@ -363,7 +363,7 @@ func ruleTreeBounds(c *Ctx, r *R) {
 				if len(x.Results) == 1 && len(d.calls) == 0 || (len(x.Results) == 1) {
 					// (the iterator may have been handed to a helper as a parameter: t.stopAbove(c.Forward(), upper))
 					all := false
-					if call, ok := resolveVal(argOf(resolveVal(x.Results[0]), d.calls)).(*ssa.Call); ok {
+					if call, ok := resolveVal(argOf(resolveVal(returnedValue(x, 0)), d.calls)).(*ssa.Call); ok {
 						if cal := staticCallee(&call.Call); cal != nil && fname(cal) == sp.iter {
 							all = true
 						}
@@ -571,7 +571,7 @@ func ruleTreeDelegation(c *Ctx, r *R) {
 		}
 		good := false
 		instrs(f, func(b *ssa.BasicBlock, i int, in ssa.Instruction) {
-			if ret, ok := in.(*ssa.Return); ok && path(ret.Results[0]) == pname(f.Params[len(f.Params)-1])+".Key" {
+			if ret, ok := in.(*ssa.Return); ok && path(returnedValue(ret, 0)) == pname(f.Params[len(f.Params)-1])+".Key" {
 				good = true
 			}
 		})
@@ -744,10 +744,10 @@ func ruleTreeFirstLast(c *Ctx, r *R) {
 				}
 			}
 			if empty {
-				zeroOK = isZeroValue(ret.Results[0]) && isZeroValue(ret.Results[1])
+				zeroOK = isZeroValue(returnedValue(ret, 0)) && isZeroValue(returnedValue(ret, 1))
 				return
 			}
-			kp, vp := path(ret.Results[0]), path(ret.Results[1])
+			kp, vp := path(returnedValue(ret, 0)), path(returnedValue(ret, 1))
 			// same leaf, same index, keys vs values
 			if strings.Contains(kp, sp[1]) && strings.Replace(kp, ".keys[", ".values[", 1) == vp {
 				if sp[2] == "0" {
@@ -778,7 +778,7 @@ func boundPredicate(pred *ssa.Function, recv ssa.Value, chain []*ssa.Call, farP 
 			return
 		}
 		nret++
-		bo, ok := resolveVal(ret.Results[0]).(*ssa.BinOp)
+		bo, ok := resolveVal(returnedValue(ret, 0)).(*ssa.BinOp)
 		if !ok {
 			why = "the predicate does not return a comparison"
 			return
